@@ -269,10 +269,22 @@ func ZZFollowerSnapshot(n, fenced int) {
 		vReach("other-term")
 		vAssert("snapshot-of-another-term-refused", serr != nil && st.closed == 0)
 		vAssert("term-unchanged", fc.term == T)
-		if vKnown("KF-C04-stale-snapshot-wipes-log", w.lastAppended != int64(n-1)) {
-			vAssert("refused-snapshot-leaves-log-alone", w.lastAppended == int64(n-1))
+		wipedLog := w.lastAppended != int64(n-1)
+		// the coordinator re-sends NewTerm for the term the node is already in: the answer is only given
+		// with that term durable, so that a restart cannot bring the node back below it
+		_, nerr := fc.NewTerm(&proto.NewTermRequest{Namespace: "zz", Shard: 1, Term: T})
+		vAssert("same-term-new-term-accepted", nerr == nil)
+		_ = fc.Close()
+		w.closed, m.closed = false, false
+		fc2i, rerr := NewFollowerController(zzConfig(), "zz", 1, &zzWalFactory{w}, &zzFactory{kv: m, snap: sm.ents})
+		vAssert("node-restarts", rerr == nil)
+		if rerr == nil {
+			vAssert("term-never-decreases-across-a-restart", fc2i.(*followerController).term == T)
+		}
+		if vKnown("KF-C04-stale-snapshot-wipes-log", wipedLog) {
+			vAssert("refused-snapshot-leaves-log-alone", !wipedLog)
 		} else {
-			vAssert("refused-snapshot-leaves-log-alone", w.lastAppended == int64(n-1))
+			vAssert("refused-snapshot-leaves-log-alone", !wipedLog)
 		}
 	} else {
 		vReach("installed")
